@@ -503,6 +503,49 @@ def allowed_sets(prog: Program, func: FuncInfo, tables=None):
     def exits(body):
         return bool(body) and isinstance(body[-1], (ast.Raise, ast.Return, ast.Continue, ast.Break))
 
+    # variables that only ever hold lower-cased text (greatest fixpoint over the plain assignments): a
+    # membership test of such a variable in a table can only succeed for the table's lower-case keys, so a
+    # mixed-case key (`keys_contain_N_of`) is unreachable once the table stops lower-casing its keys (seed C11-m10)
+    assigns = {}
+    other_bound = set(p.name for p in func.params)
+    for n in ast.walk(func.node):
+        if isinstance(n, ast.Assign):
+            for t in n.targets:
+                if isinstance(t, ast.Name):
+                    assigns.setdefault(t.id, []).append(n.value)
+                else:
+                    other_bound |= {x.id for x in ast.walk(t) if isinstance(x, ast.Name)}
+        elif isinstance(n, (ast.For, ast.comprehension)):
+            other_bound |= {x.id for x in ast.walk(n.target) if isinstance(x, ast.Name)}
+        elif isinstance(n, (ast.AugAssign, ast.AnnAssign, ast.NamedExpr)):
+            other_bound |= {x.id for x in ast.walk(n.target) if isinstance(x, ast.Name)}
+        elif isinstance(n, ast.ExceptHandler) and n.name:
+            other_bound.add(n.name)
+        elif isinstance(n, ast.withitem) and n.optional_vars is not None:
+            other_bound |= {x.id for x in ast.walk(n.optional_vars) if isinstance(x, ast.Name)}
+    lowered = set(assigns) - other_bound
+
+    def is_lowered(e):
+        if isinstance(e, ast.Call) and isinstance(e.func, ast.Attribute) and e.func.attr == "lower" and not e.args:
+            return True
+        if isinstance(e, ast.Name):
+            return e.id in lowered
+        if isinstance(e, ast.Subscript):
+            return isinstance(e.value, ast.Name) and e.value.id in lowered
+        if isinstance(e, (ast.ListComp, ast.GeneratorExp)):
+            return is_lowered(e.elt)
+        if isinstance(e, ast.Call) and isinstance(e.func, ast.Attribute) and e.func.attr == "get" and len(e.args) == 2:
+            t = table_of(e.func.value)
+            return isinstance(t, dict) and all(isinstance(v, str) and v == v.lower() for v in t.values()) and is_lowered(e.args[1])
+        return False
+    changed = True
+    while changed:
+        changed = False
+        for v in sorted(lowered):
+            if not all(is_lowered(e) for e in assigns[v]):
+                lowered.discard(v)
+                changed = True
+
     def refine(test, state, branch):
         st = dict(state)
         if isinstance(test, ast.UnaryOp) and isinstance(test.op, ast.Not):
@@ -510,6 +553,8 @@ def allowed_sets(prog: Program, func: FuncInfo, tables=None):
         if isinstance(test, ast.Compare) and len(test.ops) == 1 and isinstance(test.left, ast.Name):
             t = table_of(test.comparators[0])
             ks = keys_of(t) if t is not None else None
+            if ks is not None and test.left.id in lowered:
+                ks = {k for k in ks if not isinstance(k, str) or k == k.lower()}
             pos = isinstance(test.ops[0], ast.In) == branch if isinstance(test.ops[0], (ast.In, ast.NotIn)) else None
             if ks is not None and pos:
                 cur = st.get(test.left.id)
